@@ -101,7 +101,7 @@ func Balloon.QueryDigestMembershipConsistency
 // visitor panics on a missing node, which is how a wrong bound here would crash the server)
 func Balloon.QueryConsistency
   props C03 C11
-  requires b.historyTree != nil && b.hasherF != nil
+  requires HistProver(b.historyTree) && b.hasherF != nil
   modifies everything
   ensures C03,C11/range-check: (start >= old(b.version) || end >= old(b.version) || start > end) ==> result_0 == nil && !isnil(result_1)
 
